@@ -4,7 +4,8 @@ id=$1; k=$2; tier=${3:-quick}; d=/tmp/seed_out/$id/m$k
 [ -d /verif/seeded/$id/m$k ] && d=/verif/seeded/$id/m$k
 cd /repo || exit 2
 if [ -n "$(git status --porcelain --untracked-files=no)" ]; then echo "/repo not clean"; exit 2; fi
-git apply $d/patch.diff 2>/dev/null || git apply --3way $d/patch.diff 2>/dev/null || { echo "$id m$k patch does not apply to current /repo"; git checkout -q -- .; exit 3; }
+pf=$d/patch.diff; [ -f $d/patch_rebased.diff ] && pf=$d/patch_rebased.diff
+git apply $pf 2>/dev/null || git apply --3way $pf 2>/dev/null || { echo "$id m$k patch does not apply to current /repo"; git reset -q --hard HEAD; exit 3; }
 cd /verif; s=$(date +%s)
 timeout 3600 ./check $id --tier $tier > /verif/.build/logs/seed_${id}_m${k}_$tier.out 2>&1; rc=$?
 e=$(date +%s)
